@@ -6,16 +6,20 @@ from checklib import cbytes, cbool, clist, cpair, cN, copt
 
 ID = "C08"
 HARNESS = "c08"
-N_CASES = {"quick": 20, "thorough": 400}
+N_CASES = {"quick": 150, "thorough": 1500}
 N_SEARCH = {"quick": 1, "thorough": 2}
 SHARD = 12
 HAS_MODEL_OUT = True
-RULE = ("chains of 1-5 diffs on a RocksDB compiled (builder or batches, v1 or v2 keys) from a generated file that went "
+RULE = ("one case in five: chains of 1-5 diffs on a RocksDB compiled (builder or batches, v1 or v2 keys) from a generated file that went "
         "through the real preprocessor: each step either the line diff to a mutated file (lines removed, added, repeated; "
         "subnets added, removed or moved to another location so that the range point lines change), shuffled and with "
         "comment lines, applied with the real rdb.ApplyDiff and compared (full dump, key -> multiset of values) with a "
         "fresh compilation of the new file, or a diff that cannot be applied (absent value, absent key, one deletion too "
-        "many, unknown operation, rejected line) after which the dump must equal the dump before; "
+        "many, unknown operation, rejected line) after which the dump must equal the dump before; the other cases: one "
+        "diff of a chosen shape on a small file with a key holding 2-6 values (removals only, additions only, both, a key "
+        "emptied, one of two equal values removed, a removal of an absent value) with the lines of that key separated by "
+        "lines of other keys, or reversed, sorted, shuffled; the reference is a fresh RocksDB compilation of B for the "
+        "first diff of a chain and one shape case in six, else the implementation's codec called line by line on B; "
         "non-trivial = distinct (database, diff) step with at least one record added or deleted, or a failing step")
 TRUSTED_BASE = [
     "the codec (Codec.ConvertLn) is a parameter of model and theorems; the harness records its output on every argument of a diff line",
@@ -60,8 +64,10 @@ def nontrivial(c):
 
 
 def case_class(c):
+    if c.get("class", "").startswith("shape:"):
+        return c["class"] + ":" + c["cfg"]
     fails = sum(1 for s in c["steps"] if not s["expect_ok"])
-    return "%s:%s:%dsteps:%dfailing" % (c["cfg"], "builder" if c["builder"] else "batches", len(c["steps"]), fails)
+    return "chain:%s:%s:%dsteps:%dfailing" % (c["cfg"], "builder" if c["builder"] else "batches", len(c["steps"]), fails)
 
 
 def shrink_candidates(c):
